@@ -291,7 +291,7 @@ def make_case(rng, i):
 def run_shard(pid, tier, seed, idx, n):
     common.setup_repo()
     res = _new_result()
-    total = 640 if tier == "quick" else 8000
+    total = 1600 if tier == "quick" else 16000
     for i in range(idx, total, n):
         rng = onp.random.Generator(onp.random.PCG64([seed, i, 23]))
         case = make_case(rng, i)
